@@ -80,33 +80,35 @@ struct Cyc {
                 Dense B(n, std::vector<Q>(n));
                 for (long j = 0; j < n; ++j) { std::vector<Q> e(n, Q(0)); e[j] = Q(1); std::vector<Q> c = apply(amg, e); for (long i = 0; i < n; ++i) B[i][j] = c[i]; l << c; }
                 if (symcfg && t.pre_cycles >= 1) {
-                    if (!is_sym(B)) r.fail("B is not symmetric");
-                    else if (!is_spd(B)) r.fail("B is not positive definite");
-                    else {
-                        // E = I - B A;  contraction certificate in the energy norm:  A - E^T A E  positive definite
-                        Dense Ad = dense(h.A); Dense E = dmul(B, Ad, n); for (long i = 0; i < n; ++i) for (long j = 0; j < n; ++j) E[i][j] = (i == j ? Q(1) : Q(0)) - E[i][j];
+                    Dense Ad = dense(h.A);
+                    // 0 = B symmetric positive definite and A - E^T A E positive definite (E = I - B A: contraction in the energy norm),
+                    // 1 = B not symmetric, 2 = B not positive definite, 3 = not a contraction
+                    auto certify = [&](const Dense &Bm) -> int {
+                        if (!is_sym(Bm)) return 1;
+                        if (!is_spd(Bm)) return 2;
+                        Dense E = dmul(Bm, Ad, n); for (long i = 0; i < n; ++i) for (long j = 0; j < n; ++j) E[i][j] = (i == j ? Q(1) : Q(0)) - E[i][j];
                         Dense AE = dmul(Ad, E, n), Et = dtrans(E, n), EAE = dmul(Et, AE, n), D(n, std::vector<Q>(n));
                         for (long i = 0; i < n; ++i) for (long j = 0; j < n; ++j) D[i][j] = Ad[i][j] - EAE[i][j];
-                        if (!is_spd(D)) {
-                            // plain aggregation with over_interp > 1 (its default): is the over-interpolation the cause?  The same
-                            // input with over_interp = 1 (same aggregates: the strength test is scale invariant) must contract.
-                            bool overint = false;
-                            if (h.kind == 0 && !(h.s.v == Q(1).v) && nl >= 3) {
-                                Hdr h1 = h; h1.s = Q(1); auto prm1 = params(h1, rp, t); AMG amg1(*h1.A.crs(), prm1);
-                                Dense B1(n, std::vector<Q>(n));
-                                for (long j = 0; j < n; ++j) { std::vector<Q> e(n, Q(0)); e[j] = Q(1); std::vector<Q> c = apply(amg1, e); for (long i = 0; i < n; ++i) B1[i][j] = c[i]; }
-                                if (amgcl_verif::access::levels(amg1).size() == nl && is_sym(B1) && is_spd(B1)) {
-                                    Dense E1 = dmul(B1, Ad, n); for (long i = 0; i < n; ++i) for (long j = 0; j < n; ++j) E1[i][j] = (i == j ? Q(1) : Q(0)) - E1[i][j];
-                                    Dense AE1 = dmul(Ad, E1, n), E1t = dtrans(E1, n), EAE1 = dmul(E1t, AE1, n), D1(n, std::vector<Q>(n));
-                                    for (long i = 0; i < n; ++i) for (long j = 0; j < n; ++j) D1[i][j] = Ad[i][j] - EAE1[i][j];
-                                    overint = is_spd(D1);
-                                }
-                            }
-                            if (overint) { r.fail("over-interpolation: B is symmetric positive definite but the stationary iteration is not a contraction in the energy norm (A - E^T A E is not positive definite) for plain aggregation with over_interp > 1 on " + std::to_string(nl) + " levels; the same input with over_interp = 1 contracts"); r.tag("over_interp_not_contracting"); }
-                            else r.fail("stationary iteration is not a contraction in the energy norm: A - E^T A E is not positive definite");
+                        return is_spd(D) ? 0 : 3;
+                    };
+                    static const char *msg[] = { "", "B is not symmetric", "B is not positive definite",
+                        "stationary iteration is not a contraction in the energy norm: A - E^T A E is not positive definite" };
+                    int v = certify(B);
+                    if (v >= 2) {
+                        // plain aggregation with over_interp > 1 (its default): is the over-interpolation the cause (known finding K02)?
+                        // B must still be symmetric, and the SAME input with over_interp = 1 (same aggregates: the strength test is
+                        // scale invariant) must have the same number of levels and pass all three certificates.
+                        bool overint = false;
+                        if (h.kind == 0 && !(h.s.v == Q(1).v) && nl >= 3) {
+                            Hdr h1 = h; h1.s = Q(1); auto prm1 = params(h1, rp, t); AMG amg1(*h1.A.crs(), prm1);
+                            Dense B1(n, std::vector<Q>(n));
+                            for (long j = 0; j < n; ++j) { std::vector<Q> e(n, Q(0)); e[j] = Q(1); std::vector<Q> c = apply(amg1, e); for (long i = 0; i < n; ++i) B1[i][j] = c[i]; }
+                            overint = amgcl_verif::access::levels(amg1).size() == nl && certify(B1) == 0;
                         }
-                        r.tag("spd-certified");
-                    }
+                        if (overint) { r.fail(std::string("over-interpolation: B is symmetric but ") + (v == 2 ? "not positive definite" : "the stationary iteration is not a contraction in the energy norm") + " for plain aggregation with over_interp > 1 on " + std::to_string(nl) + " levels; the same input with over_interp = 1 gives a symmetric positive definite, contracting B"); r.tag("over_interp_not_contracting"); }
+                        else r.fail(msg[v]);
+                    } else if (v == 1) r.fail(msg[1]);
+                    else r.tag("spd-certified");
                 }
                 r.nontrivial = nl >= 2 && n > 1; if (symcfg) r.tag("symcfg");
             }
